@@ -95,8 +95,11 @@ def one_instance(ctx, desc, exhaustive_ok=True):
     ctx.count(f"dtype[{inst.dtype}]")
     why = dtype_ok(inst, desc)
     if why is not None:
-        ctx.violation("instance-dtype-too-narrow", why,
-                      {"kind": "dtype", "desc": desc})
+        # not a verdict: how wide the type must be depends on what the
+        # decoders store; the decisive monitor is the feasibility oracle on
+        # every decode below
+        ctx.count("dtype_narrower_than_bin_plus_item")
+        ctx.note("storage type narrower than max_dim + max item side: " + why)
     encs = _encoders(inst)
     y = None
     n = wb.n_items(desc)
